@@ -300,7 +300,7 @@ func (c *Ctx) definitelyFails(fn *ssa.Function, r *ssa.Return) bool {
 		cl, ok := sv.(*ssa.Call)
 		if !ok {
 			if u, ok := sv.(*ssa.UnOp); ok {
-				if g, ok := u.X.(*ssa.Global); ok && strings.HasPrefix(g.Name(), "Err") {
+				if g, ok := u.X.(*ssa.Global); ok && isSentinelErrorVar(g) {
 					continue
 				}
 			}
